@@ -19,8 +19,16 @@ type FRec struct {
 	Desc  string // "" = none; otherwise follows the name after a separator
 	Sep   string // " " or "\t"
 	Seq   string
+	Rep   int // >1: the sequence is Seq repeated Rep times (files larger than a 4 KiB or 64 KiB read buffer)
 	Width int
 	Blank int // blank lines before this record's header
+}
+
+func (r FRec) full() string {
+	if r.Rep > 1 {
+		return strings.Repeat(r.Seq, r.Rep)
+	}
+	return r.Seq
 }
 
 type Case struct {
@@ -61,7 +69,11 @@ func recGen() *rapid.Generator[FRec] {
 		if rapid.IntRange(0, 3).Draw(t, "blankk") == 0 {
 			blank = rapid.IntRange(1, 2).Draw(t, "blank")
 		}
-		return FRec{Name: name, Desc: desc, Sep: rapid.SampledFrom([]string{" ", "\t"}).Draw(t, "sep"), Seq: seq, Width: w, Blank: blank}
+		rep := 1
+		if rapid.IntRange(0, 11).Draw(t, "long") == 0 {
+			rep = rapid.SampledFrom([]int{25, 60, 400}).Draw(t, "rep")
+		}
+		return FRec{Name: name, Desc: desc, Sep: rapid.SampledFrom([]string{" ", "\t"}).Draw(t, "sep"), Seq: seq, Rep: rep, Width: w, Blank: blank}
 	})
 }
 
@@ -93,6 +105,7 @@ func build(c Case) ([]byte, []truth) {
 	var b bytes.Buffer
 	tr := make([]truth, len(c.Recs))
 	for i, r := range c.Recs {
+		r.Seq = r.full()
 		for k := 0; k < r.Blank; k++ {
 			b.WriteString(nl)
 		}
@@ -138,6 +151,7 @@ func run(c Case, rec *h.Rec) {
 		return
 	}
 	for i, r := range c.Recs {
+		r.Seq = r.full()
 		got, ok := idx[r.Name]
 		if !ok {
 			rec.Failf("record %q missing from index\n%q", r.Name, data)
@@ -180,6 +194,7 @@ func run(c Case, rec *h.Rec) {
 		return
 	}
 	for i, r := range c.Recs {
+		r.Seq = r.full()
 		if !strings.HasPrefix(lines[i], fmt.Sprintf("%s\t%d\t%d\t", r.Name, len(r.Seq), tr[i].start)) {
 			rec.Failf("WriteTo line %d = %q, want name %q length %d start %d first", i, lines[i], r.Name, len(r.Seq), tr[i].start)
 			return
@@ -189,6 +204,7 @@ func run(c Case, rec *h.Rec) {
 	f := fai.NewFile(bytes.NewReader(data), idx2)
 	lineEndRange, blankBefore := false, false
 	for i, r := range c.Recs {
+		r.Seq = r.full()
 		if r.Blank > 0 {
 			blankBefore = true
 		}
@@ -216,6 +232,9 @@ func run(c Case, rec *h.Rec) {
 					lineEndRange = true
 				}
 				for _, bs := range c.Bufs {
+					if bs < 16 && e-s > 2000 {
+						continue // cost: long ranges are not read a few bytes at a time
+					}
 					sq, err := f.SeqRange(r.Name, s, e)
 					if err != nil {
 						rec.Failf("SeqRange(%q,%d,%d): %v", r.Name, s, e, err)
@@ -244,6 +263,8 @@ func run(c Case, rec *h.Rec) {
 			return
 		}
 	}
+	rec.ClassIf(len(data) > 4096, "file_larger_than_4KiB")
+	rec.ClassIf(len(data) > 65536, "file_larger_than_64KiB")
 	rec.ClassIf(c.CRLF, "crlf")
 	rec.ClassIf(blankBefore, "blank_line_between_records")
 	rec.ClassIf(c.BlankEnd > 0, "blank_lines_at_end")
